@@ -21,7 +21,9 @@
 From AwVerif Require Import Base.Prelude Model.MemHeap Model.TransformHeap Model.DictHeap Model.Group
   Model.GroupHeap
   Proofs.MemHeapBase Proofs.MemHeapCopy Proofs.MemHeapFrame
-  Proofs.TransformHeapBase Proofs.DictHeapBase Proofs.GroupHeapFrame Proofs.GroupHeapRefine.
+  Proofs.TransformHeapBase Proofs.DictHeapBase Proofs.GroupHeapFrame Proofs.GroupHeapRefine
+  Proofs.GroupHeapMerge Proofs.GroupHeapChunk Proofs.GroupHeapTransfer.
+From AwVerif Require Proofs.GroupChunk.
 From Coq Require Import Sorting.Permutation.
 Local Open Scope nat_scope.
 Local Notation lookup := MemHeap.lookup.
@@ -207,4 +209,98 @@ Proof.
   split; [reflexivity|]. split.
   { eexists. split; [vm_compute; reflexivity|]. split; vm_compute; reflexivity. }
   vm_compute. reflexivity.
+Qed.
+
+(* ---- REFINEMENT of merge_events_by_keys and chunk_events_by_key (task B11) ----
+   Proofs/GroupHeapMerge.v, GroupHeapChunk.v, GroupHeapTransfer.v.  For EVERY heap on which the
+   argument list reads back as vs ([glist_at]: its elements are Event objects whose data
+   dicts are dict cells with readable entries) and any aliasing Python allows (the same
+   Event several times in the list, data dicts shared between Events, list values shared
+   between dicts).  No closedness / acyclicity hypothesis.
+
+   hashable h keys z       every value of the dict z under one of the keys is a scalar or a
+                           list object without mutable members (what `tuple(val)` can hash)
+   hashable_keys h L keys  ... for the data dict of every element of the list at L. *)
+
+(* whenever the call returns, the returned list reads back as the functional model's
+   result on vs, and the argument reads back as before *)
+Theorem C16_merge_refines_whenever_returns : forall h L keys vs h' L', glist_at h L = Some vs ->
+  merge_events_by_keys_h h L keys = Ok (h', L') ->
+  glist_at h' L' = Some (merge_events_by_keys vs keys) /\ glist_at h' L = Some vs.
+Proof. exact merge_h_refines_partial. Qed.
+Print Assumptions C16_merge_refines_whenever_returns.
+
+(* it returns when the values under the keys are hashable ... *)
+Theorem C16_merge_refines : forall h L keys vs, glist_at h L = Some vs -> hashable_keys h L keys ->
+  exists h' L', merge_events_by_keys_h h L keys = Ok (h', L') /\
+                glist_at h' L' = Some (merge_events_by_keys vs keys) /\ glist_at h' L = Some vs.
+Proof. exact merge_h_refines. Qed.
+Print Assumptions C16_merge_refines.
+
+(* ... and only then: the hypothesis is exact (keys = [] returns the argument at once) *)
+Theorem C16_merge_returns_iff : forall h L keys vs, glist_at h L = Some vs -> keys <> [] ->
+  ((exists r, merge_events_by_keys_h h L keys = Ok r) <-> hashable_keys h L keys).
+Proof. exact merge_h_returns_iff. Qed.
+Print Assumptions C16_merge_returns_iff.
+
+(* chunk_events_by_key: total; the returned chunk Events read back ([chunks_at]: data =
+   {key: value, sub_key: list of sub-events}) as the functional model's chunks.  key <>
+   sub_key is domain decision 2 of notes/agents/C16.md ("subevents" is the chunk's own key) *)
+Theorem C16_chunk_refines : forall sub_key h L key pulse vs, key <> sub_key -> glist_at h L = Some vs ->
+  exists h' L', chunk_events_by_key_h sub_key h L key pulse = Ok (h', L') /\
+                chunks_at sub_key key h' L' = Some (chunk_events_by_key vs key pulse) /\
+                glist_at h' L = Some vs.
+Proof. exact chunk_h_refines. Qed.
+Print Assumptions C16_chunk_refines.
+
+(* With the two refinements every theorem of Props/C16.v speaks about objects.  Two of them
+   transferred: the total duration is conserved by merge (an object listed twice counts
+   twice); the sub-event lists of the chunks concatenate to the key-bearing prefix, every
+   chunk is well-formed and the durations add up. *)
+Theorem C16_merge_heap_total_duration : forall h L keys vs, glist_at h L = Some vs -> hashable_keys h L keys ->
+  exists h' L' out, merge_events_by_keys_h h L keys = Ok (h', L') /\
+                    glist_at h' L' = Some out /\
+                    sumZ (map gdur out) = sumZ (map gdur vs) /\
+                    glist_at h' L = Some vs.
+Proof. exact merge_h_total_duration. Qed.
+Print Assumptions C16_merge_heap_total_duration.
+
+Theorem C16_chunk_heap_partition : forall sub_key h L key pulse vs, key <> sub_key -> glist_at h L = Some vs ->
+  exists h' L' out, chunk_events_by_key_h sub_key h L key pulse = Ok (h', L') /\
+                    chunks_at sub_key key h' L' = Some out /\
+                    concat (map csub out) = GroupChunk.key_prefix key vs /\
+                    Forall (GroupChunk.chunk_ok key) out /\
+                    sumZ (map cdur out) = sumZ (map gdur (GroupChunk.key_prefix key vs)) /\
+                    glist_at h' L = Some vs.
+Proof. exact chunk_h_partition. Qed.
+Print Assumptions C16_chunk_heap_partition.
+
+(* the hypotheses are met by ex16 (list value 7 under key 101 is a flat list; the same
+   Event twice) ... *)
+Example C16own_refine_hypotheses_met :
+  glist_at ex16 5 = Some [ex16_a; ex16_b; ex16_a] /\ hashable_keys ex16 5 [100; 101]%Z /\ (100 <> 99)%Z.
+Proof.
+  split; [vm_compute; reflexivity|]. split; [|discriminate].
+  intros ks e z LE I EZ k l Ik Zk. vm_compute in LE. inversion LE; subst ks.
+  destruct I as [<-|[<-|[<-|[]]]]; vm_compute in EZ; inversion EZ; subst z;
+    (destruct Ik as [<-|[<-|[]]]; vm_compute in Zk; try discriminate; inversion Zk; subst;
+     eexists; vm_compute; reflexivity).
+Qed.
+
+(* ... and the hashability hypothesis cannot be dropped: a list value with a mutable member
+   (cell 1 refers to cell 2) reads back, but the call raises TypeError (unhashable) where
+   the functional model returns a group *)
+Definition ex16n : heap :=
+  [ dict_cell [(100%Z, ZK 1)]; Cell (TNode 7) [2]; Cell (TNode 8) [];
+    Cell (TEv None 0 1000) [0]; Cell (TNode EVENT_LIST) [3] ].
+
+Example C16own_unhashable_raises :
+  glist_at ex16n 4 = Some [mkG None 0 1000 [(100, 7)]%Z] /\
+  merge_events_by_keys_h ex16n 4 [100%Z] = Err TypeError /\
+  ~ hashable_keys ex16n 4 [100%Z].
+Proof.
+  split; [vm_compute; reflexivity|]. split; [vm_compute; reflexivity|].
+  intro Hh. assert (X : exists r, merge_events_by_keys_h ex16n 4 [100%Z] = Ok r).
+  { eapply merge_h_returns_iff; [|discriminate|exact Hh]. vm_compute. reflexivity. }
+  destruct X as (r & X). vm_compute in X. discriminate.
 Qed.
